@@ -112,6 +112,32 @@ CHECKS = {
                 '+-1 adjustment, the range helper handles before-first / after-last / lower_bound adjustment as specified. The '
                 'floating-point behaviour of the epsilon test (0.1-interval rounding) is NOT decided.',
     },
+    'C05': {
+        'technique': 'static analysis: abstract interpretation (boolean abstraction, loops as one arbitrary iteration, symbolic stores) of '
+                     'getOffsetAndCount(Tag)/taggedData/featureData on all abstract paths; dead-store (liveness) rule on index results',
+        'text': 'Decides structural necessary conditions of C05: per-dimension conversion inputs at one index with end = position + '
+                'extent, inclusive mode without extent, offset = first / count = 1 + (second - first), point fall-back only for zero '
+                'extent (else OutOfBounds), results reach the out-parameters, view built only after the bounds test on the same '
+                'values, feature dispatch per link type, range-pair composition. Which elements come back for given floating-point '
+                'positions and the padding extent of unspecified dimensions are numeric: NOT decided.',
+    },
+    'C06': {
+        'technique': 'static analysis: abstract interpretation of getOffsetAndCount(MultiTag)/taggedData/featureData (all abstract '
+                     'paths), liveness rule on index results, def-use link between batched conversion and per-index assembly',
+        'text': 'Decides structural necessary conditions of C06: the row read from positions/extents is the requested index, bounds '
+                'guard before reading, per-index offset/count from the range at one dimension index, point fall-back stored into the '
+                'offset handed to the caller (dead-store rule), view after bounds test, indexed/tagged/untagged feature dispatch. '
+                'Element selection for particular floating-point positions is numeric: NOT decided.',
+    },
+    'C17': {
+        'technique': 'static analysis: abstract interpretation of dataSlice, DataView (ctor, transform_coordinates, ioRead/ioWrite) and '
+                     'the NDSize comparison operators; guard-fact rule for subscripts on caller-owned vectors',
+        'text': 'Decides structural necessary conditions of C17: dataSlice rejects start > end, converts the padded vectors at one '
+                'index with the right descriptor, builds the view only after the bounds test; unspecified dimensions are filled in for '
+                'all descriptor kinds; DataView checks its window at construction, compares each request with the window extent and '
+                'translates by the window origin; NDSize <=,<,>,>= have the element-wise meaning the guards rely on; subscripts on '
+                'caller-owned vectors are bounded. Which elements a position pair selects is numeric: NOT decided.',
+    },
 }
 
 _NYI = 'check not built yet in this session (planned in DESIGN.md); not claimed until its rule runs and is validated'
